@@ -17,13 +17,12 @@ def pcc_landscape(
 ):
     product = f0 * f1.conj()
     power = _abs2(backend.ifftn(product))
-    power = backend.fftshift(power)
-    centers = tuple(s // 2 for s in power.shape)
-    slices = tuple(
-        slice(max(c - int(shiftl), 0), min(c + int(shiftr) + 1, s), None)
-        for c, shiftl, shiftr, s in zip(centers, max_shifts, max_shifts, power.shape)
-    )
-    power = power[slices]
+    # The cross power is periodic. Take the window [-max_shifts, max_shifts] around the
+    # zero displacement (index 0) axis by axis, wrapping around if it is wider than the
+    # image, so that the center of the landscape is always the zero displacement.
+    for axis, (m, s) in enumerate(zip(max_shifts, power.shape)):
+        indices = backend.asarray(np.arange(-int(m), int(m) + 1) % s)
+        power = power[(slice(None),) * axis + (indices,)]
     return power
 
 
